@@ -1,9 +1,9 @@
 SPECIFICATION Spec
 CONSTANTS
-  MinArity = 0
-  MaxArity = 1
+  MinArity = 3
+  MaxArity = 3
   Stride = 1
   Offset = 0
-  Reduced = FALSE
+  Reduced = TRUE
 INVARIANT SigOK
 CHECK_DEADLOCK FALSE
